@@ -107,6 +107,7 @@ enum {
     PR_FS_READS, PR_FS_SHORT_READS, PR_FS_READ_FAULTS, PR_FS_OPEN_FAULTS, PR_FS_STAT_FAULTS, PR_FS_WRITES,
     PR_FS_WRITE_FAULTS,
     PR_CLOCK_READS, PR_ALLOCS, PR_ALLOC_FAILS, PR_JUNK_BYTES,
+    PR_C10_ROWS_CHECKED,       /* nodes whose snapshot was compared with the rows finally handed out */
     PR__N
 };
 extern uint64_t g_probe[PR__N];
@@ -123,6 +124,7 @@ void hooks_install(void);
 uint64_t hooks_event_hash(void);
 uint64_t hooks_event_count(void);
 void hooks_emit_log(FILE *f, int max);
+void hooks_c10_final_rows(char **rowbyrank, int nrank, long alen);
 extern int g_hooks_log_on;
 
 /* ---------- simfs */
